@@ -112,6 +112,9 @@ class XtrigWatch(Monitor):
         """The moment cylc may forget succeeded results: recompute, from the
         pool itself, which signatures are still needed by some task."""
         needed = set()
+        # (from the pool as it is now, not from the list cylc passes in)
+        if self.h.schd is not None and hasattr(self.h.schd, 'pool'):
+            itasks = self.h.schd.pool.get_tasks()
         for i in itasks:
             for label, sat in i.state.xtriggers.items():
                 if sat:
